@@ -391,7 +391,7 @@ def check_function(check, ka: KeyAnalysis, fi: FuncInfo, rule_prefix: str = 'R-K
     by_expr.setdefault(txt(u.expr), []).append(u.kind)
   if issues:
     for it in issues:
-      check.ob(f'{rule_prefix}.{it.rule}', fi, it.construct, False, it.detail, node=it.node, advisory=advisory)
+      check.ob(f'{rule_prefix}.{it.rule}', fi, it.construct, False, it.detail, node=it.node, advisory=advisory, exact=True)
   elif uses:
     check.ob(f'{rule_prefix}.K-LINEAR', fi, '; '.join(f'{k}:{"/".join(v)}' for k, v in sorted(by_expr.items())), True,
              f'{len(uses)} key uses, each identity used once per path')
@@ -443,7 +443,7 @@ def check_aggregator_state_keys(check, repo: Repo, aggs, rule: str = 'R-KEY.K3')
         check.ob(rule, fi, f'{r.cls.name}(rng={txt(k)})', ok, why, node=s)
     issues, uses = ka.linear_issues(fi)
     for it in issues:
-      check.ob(rule + '.linear', fi, it.construct, False, it.detail, node=it.node)
+      check.ob(rule + '.linear', fi, it.construct, False, it.detail, node=it.node, exact=True)
     if not issues and uses:
       check.ob(rule + '.linear', fi, f'{len(uses)} key uses in {fi.qualname}', True,
                'every key identity is split/consumed/stored at most once per path')
